@@ -287,7 +287,16 @@ func runCase(name string, init int, steps []stepJ) (caseJ, error) {
 	// poller stays silent, so ntfnHandler's own reorg handling does not
 	// interleave with the rescan
 	pollEvery := 2 * time.Millisecond
-	if rescan {
+	zmq := false
+	for _, st := range steps {
+		if st.Kind == "zmq" {
+			zmq = true
+		}
+	}
+	if rescan || zmq {
+		// a case with "zmq" steps hands every block notification to the
+		// client itself (hook VerifC15HandBlock), as a ZMQ subscription
+		// delivers the node's new tip whatever its height
 		pollEvery = time.Hour
 	}
 	conn, err := chain.NewBitcoindConn(&chain.BitcoindConfig{
@@ -397,6 +406,19 @@ func runCase(name string, init int, steps []stepJ) (caseJ, error) {
 				// notification will); the stream is still judged
 				before = 1 << 30
 			}
+		} else if st.Kind == "zmq" {
+			// the node switches (Depth blocks replaced by N new ones, N may
+			// equal Depth or be 0 with Depth 0 for a plain extension) and
+			// publishes its new tip
+			_, added = r.c.ReorgTxs(st.Depth, r.blockTxs(st.Pay, st.N))
+			for _, b := range added {
+				r.register(b)
+			}
+			cl.VerifC15HandBlock(r.c.Tip().Msg)
+			before = r.c.Tip().Height - 1 // judged whenever the new tip is at least as high as the client's block
+			if bs0.Height > r.c.Tip().Height {
+				before = 1 << 30
+			}
 		} else if st.Kind == "extend" || st.Kind == "reorg" {
 			if st.Fail > 0 {
 				base := srv.CallCount("getblockhash")
@@ -432,8 +454,12 @@ func runCase(name string, init int, steps []stepJ) (caseJ, error) {
 		}
 		tip := r.c.Tip()
 		so := stepOut{Step: st, Tip: r.id(tip.Hash), Visible: tip.Height > before, Best0: r.id(bs0.Hash), Handed: []int64{}}
-		for h := pollH + 1; h <= tip.Height; h++ {
-			so.Handed = append(so.Handed, r.id(r.c.At(h).Hash))
+		if st.Kind == "zmq" {
+			so.Handed = append(so.Handed, r.id(tip.Hash))
+		} else {
+			for h := pollH + 1; h <= tip.Height; h++ {
+				so.Handed = append(so.Handed, r.id(r.c.At(h).Hash))
+			}
 		}
 		if tip.Height > pollH {
 			pollH = tip.Height
@@ -671,6 +697,8 @@ func main() {
 			{Name: "w-jump", Init: 3, Steps: []stepJ{{Kind: "extend", N: 3}, {Kind: "reorg", Depth: 4, N: 6}}},
 		}
 		ws = append(ws,
+			inJ{Name: "w-zmq-same-height-branch-then-child", Init: 5, Steps: []stepJ{{Kind: "zmq", Depth: 1, N: 1}, {Kind: "zmq", Depth: 0, N: 1}}},
+			inJ{Name: "w-zmq-same-height-depth2-then-child", Init: 6, Steps: []stepJ{{Kind: "zmq", Depth: 2, N: 2, Pay: []bool{true, false}}, {Kind: "zmq", Depth: 0, N: 1}, {Kind: "zmq", Depth: 3, N: 5}}},
 			inJ{Name: "w-poll-last-fetch-of-tick-fails-once", Init: 4, Steps: []stepJ{{Kind: "extend", N: 2, Fail: 2}}},
 			inJ{Name: "w-poll-first-fetch-of-tick-fails-once", Init: 4, Steps: []stepJ{{Kind: "extend", N: 3, Fail: 1}, {Kind: "extend", N: 1}}},
 			inJ{Name: "w-burst-behind-busy-handler", Init: 4, Steps: []stepJ{{Kind: "reorg", Depth: 2, N: 140, Stall: 400}}},
@@ -712,6 +740,33 @@ func main() {
 				}
 			}
 			if err := emit(out, inJ{BD: true, Name: fmt.Sprintf("r-%d-%d", c.Seed, i), Init: init, Steps: []stepJ{st}}); err != nil {
+				return err
+			}
+		}
+		// ZMQ-style delivery: only the node's new tip is handed over, also
+		// when it is not higher than the client's block
+		for i := 0; i < c.N/3+1; i++ {
+			g := gen.New(c.Seed, int64(11000+i))
+			init := 4 + g.Intn(6)
+			var steps []stepJ
+			h := init
+			for k := 0; k < 3+g.Intn(4); k++ {
+				d := g.Intn(4)
+				if d >= h {
+					d = h - 1
+				}
+				n := d + g.Intn(3)
+				if d == 0 && n == 0 {
+					n = 1
+				}
+				pay := make([]bool, n)
+				for j := range pay {
+					pay[j] = g.Intn(3) == 0
+				}
+				steps = append(steps, stepJ{Kind: "zmq", Depth: d, N: n, Pay: pay})
+				h += n - d
+			}
+			if err := emit(out, inJ{BD: true, Name: fmt.Sprintf("z-%d-%d", c.Seed, i), Init: init, Steps: steps}); err != nil {
 				return err
 			}
 		}
